@@ -186,7 +186,7 @@ ASAN_ENV = dict(os.environ, ASAN_OPTIONS="detect_leaks=0:abort_on_error=0:exitco
                 UBSAN_OPTIONS="print_stacktrace=1:halt_on_error=1:exitcode=66")
 
 
-def run_c(exe, lines, timeout=120, valgrind=False):
+def run_c(exe, lines, timeout=40, valgrind=False):
     try:
         argv = [str(exe)]
         if valgrind:
@@ -197,7 +197,7 @@ def run_c(exe, lines, timeout=120, valgrind=False):
         return r.stdout.split("\n")[:-1] if r.stdout.endswith("\n") else r.stdout.split("\n"), r.returncode, r.stderr
     except subprocess.TimeoutExpired as e:
         so = e.stdout.decode(errors="replace") if e.stdout else ""
-        return so.split("\n")[:-1], -9, "timeout"
+        return so.split("\n")[:-1], -9, "SUMMARY: timeout after %ss (hang / infinite loop?)" % timeout
 
 
 def run_lean(container, lines, timeout=300):
@@ -327,11 +327,13 @@ class Runner:
         self.samples = []
         self.model_lines = 0
         self.hooks = []       # functions (hist_index, ops, c_lines) -> [Diff]
+        self.timeout = 40
 
     def run(self, histories):
         """histories: list of list[str] (each starts with its constructor, the runner adds `reset`).
         returns list of (hist_index, [Diff])"""
         pending = list(range(len(histories)))
+        self.skipped = set()
         c_out = {}
         crash = {}
         while pending:
@@ -342,7 +344,7 @@ class Runner:
                 lines.append("reset")
                 lines.extend(histories[h])
             bounds.append(len(lines))
-            out, rc, err = run_c(self.exe, lines, valgrind=self.valgrind)
+            out, rc, err = run_c(self.exe, lines, timeout=self.timeout, valgrind=self.valgrind)
             nxt = []
             for k, h in enumerate(pending):
                 lo, hi = bounds[k], bounds[k + 1]
@@ -357,6 +359,10 @@ class Runner:
                 if rc != 0 and pending:
                     crash[pending[-1]] = summarize_crash(err)
             pending = nxt
+            if len(crash) >= 3 and pending:
+                # enough evidence; do not spend minutes on further aborts/hangs
+                self.skipped = set(pending)
+                break
         # annotate and run lean once
         lines = []
         bounds = {}
@@ -377,6 +383,8 @@ class Runner:
             raise RuntimeError(f"lean driver failed rc={lrc} lines={len(lout)} expected={2*len(lines)}: {lerr[:500]}")
         results = []
         for h, ops in enumerate(histories):
+            if h in self.skipped:
+                continue
             lo = bounds[h] + 1
             s_lines = [lout[2 * (lo + i)] for i in range(len(ops))]
             m_lines = [lout[2 * (lo + i) + 1] for i in range(len(ops))]
@@ -427,14 +435,16 @@ def shrink(container, ops, pred, opts=None, budget=400, hooks=None):
     The first line (constructor) is kept."""
     r = Runner(container, opts)
     r.hooks = hooks or []
+    r.timeout = 8
+    t_end = time.time() + 90
     cur = list(ops)
     n = 2
     tries = 0
-    while len(cur) > 2 and tries < budget:
+    while len(cur) > 2 and tries < budget and time.time() < t_end:
         chunk = max(1, (len(cur) - 1) // n)
         removed = False
         i = 1
-        while i < len(cur) and tries < budget:
+        while i < len(cur) and tries < budget and time.time() < t_end:
             cand = cur[:i] + cur[i + chunk:]
             tries += 1
             res = r.run([cand])
